@@ -30,7 +30,9 @@ ASSUMPTIONS = [
     "property text, and has its own keys (*-never-sampled)",
     "histories longer than 2^31 insertions are produced by real add() calls (jitted fori_loop, labels "
     "((k-1) mod 2^20)+1 so that they stay exact in float32); violations there carry the prefix "
-    "past-2^31-insertions-; `position` itself is only compared with the insertion count while it fits int32",
+    "past-2^31-insertions-",
+    "`position` / `current_size` are ring internals not named by the property: their agreement with the insertion "
+    "count is recorded in the notes (first_position_differs, first_current_size_differs), never as a violation",
     "DQN leg: a slot counts as written iff its observation differs from the filler 0.5 (one-hot observations "
     "never equal 0.5)",
 ]
@@ -245,13 +247,22 @@ def _judge_contents(ctx, pre, names, ids, row, C, stored, info):
     return ok
 
 
-def _judge_position(ctx, pre, buf, n, C, info):
-    pos, cur = int(np.asarray(buf.position)), int(np.asarray(buf.current_size))
-    ctx.monitor("position_checks")
+def _observe_position(ctx, buf, n, C, info):
+    """`position` / `current_size` are internals of the ring (nothing outside replay.py reads them) and the
+    property does not mention them, so a disagreement with the insertion count is recorded as an observation in
+    the evidence notes, never as a violation (a correct ring may keep its counter reduced)."""
+    try:
+        pos, cur = int(np.asarray(buf.position)), int(np.asarray(buf.current_size))
+    except Exception:
+        ctx.monitor("position_not_observable")
+        return
+    ctx.monitor("position_observed")
     if pos != n:
-        ctx.violation(pre + "position-not-insertion-count", dict(info, got=pos, want=n))
+        ctx.monitor("position_differs_from_insertion_count")
+        ctx.notes.setdefault("first_position_differs", dict(info, got=pos, want=n))
     if cur != min(n, C):
-        ctx.violation(pre + "current-size-not-min-n-capacity", dict(info, got=cur, want=min(n, C)))
+        ctx.monitor("current_size_differs_from_min_n_capacity")
+        ctx.notes.setdefault("first_current_size_differs", dict(info, got=cur, want=min(n, C)))
 
 
 def _judge_batches(ctx, pre, batch, K, b, stored, info, present=None):
@@ -352,7 +363,7 @@ def _prefix_check(ctx, cfg, C, T, stacked, mode, pre="", base=0, id0=1, check_po
         ctx.violation(pre + "buffer-leaf-shape", dict(info0, error=str(e)))
         return
     row, ids = row.reshape(T, C), ids.reshape(T, C, -1)
-    pos = np.asarray(stacked.position)
+    pos = np.asarray(stacked.position) if check_pos else None
     for t in range(T):
         n = t + 1
         stored = set(range(id0 + max(0, n - C), id0 + n))
@@ -360,9 +371,10 @@ def _prefix_check(ctx, cfg, C, T, stacked, mode, pre="", base=0, id0=1, check_po
         ctx.case(info, nontrivial=n > C, cls=f"contents/{mode}/" + ("wrapped" if n > C else "filling"))
         _judge_contents(ctx, pre, names, ids[t], row[t], C, stored, info)
         if check_pos:
-            ctx.monitor("position_checks")
+            ctx.monitor("position_observed")
             if int(pos[t]) != base + n:
-                ctx.violation(pre + "position-not-insertion-count", dict(info, got=int(pos[t]), want=base + n))
+                ctx.monitor("position_differs_from_insertion_count")
+                ctx.notes.setdefault("first_position_differs", dict(info, got=int(pos[t]), want=base + n))
 
 
 def _pick_capacity(rng, i, hi=64):
@@ -408,7 +420,7 @@ def u_ring(ctx):
             names, ids, row = _decode(init, C)
             ctx.case(dict(info0, n=0), nontrivial=False, cls=f"contents/{mode}/empty")
             _judge_contents(ctx, "", names, ids, row, C, set(), dict(info0, n=0))
-            _judge_position(ctx, "", buf, 0, C, dict(info0, n=0))
+            _observe_position(ctx, buf, 0, C, dict(info0, n=0))
             addj = eqx.filter_jit(lambda b, g, cfg=cfg: _add_id(cfg, b, g))
             for n in range(1, T + 1):
                 if mode == "jit-add":
@@ -419,7 +431,7 @@ def u_ring(ctx):
                 names, ids, row = _decode(_np(buf), C)
                 ctx.case(info, nontrivial=n > C, cls=f"contents/{mode}/" + ("wrapped" if n > C else "filling"))
                 _judge_contents(ctx, "", names, ids, row, C, set(range(max(0, n - C) + 1, n + 1)), info)
-                _judge_position(ctx, "", buf, n, C, info)
+                _observe_position(ctx, buf, n, C, info)
             ctx.monitor("histories_" + mode.replace("-", "_"))
         except _Shape as e:
             ctx.violation("buffer-leaf-shape", dict(info0, error=str(e)))
@@ -577,7 +589,7 @@ def u_sample_large(ctx):
             continue
         ctx.case(dict(info0, mode="scan-jit-masked"), nontrivial=n > C, cls="contents/scan-jit-masked/" + kind)
         _judge_contents(ctx, "", names, ids, row, C, stored, dict(info0, mode="scan-jit-masked"))
-        _judge_position(ctx, "", buf, n, C, info0)
+        _observe_position(ctx, buf, n, C, info0)
         bs = sorted(set([1, m, max(1, m - 1), int(rng.integers(1, m + 1)), max(1, m // 2)]))
         for b in bs[: ctx.n(3, 5)]:
             one, keysfn, _ = _sample_fns(b)
@@ -691,7 +703,7 @@ def _vector(ctx, how, N, k0=0):
                 info = dict(info0, env=e, n=ns[e])
                 ctx.case(info, nontrivial=ns[e] > c, cls=f"vec-contents/{how}/{ks[e]}")
                 _judge_contents(ctx, pre, names, ids, row, c, stored_e[e], info)
-                _judge_position(ctx, pre, one, ns[e], c, info)
+                _observe_position(ctx, one, ns[e], c, info)
         except _Shape as e:
             ctx.violation(pre + "buffer-leaf-shape", dict(info0, error=str(e)))
             continue
@@ -864,8 +876,6 @@ def u_algo(ctx):
                     ctx.violation("dqn-eager-add-contents-not-most-recent",
                                   dict(info, written_slots=int(w.sum()), want=min(n, C),
                                        missing=sum((want - got).values()), extra=sum((got - want).values())))
-                if int(after.position) != n:
-                    ctx.violation("dqn-eager-position-not-insertion-count", dict(info, got=int(after.position), want=n))
             else:
                 _, before, b, res = ev
                 ctx.monitor("dqn_sample_contract_concrete")
@@ -972,14 +982,13 @@ def u_longrun(ctx):
 
         return run
 
-    def checkpoint(pre, cfg, C, buf, n, info0, cls, position=True, reach=False):
+    def checkpoint(pre, cfg, C, buf, n, info0, cls, reach=False):
         stored = set(_label(k) for k in range(max(1, n - C + 1), n + 1))
         info = dict(info0, insertions=n, want_labels=sorted(stored))
         names, ids, row = _decode(_np(buf), C)
         ctx.case(dict(info0, insertions=n), nontrivial=True, cls=f"contents/{cls}")
         ok = _judge_contents(ctx, pre, names, ids, row, C, stored, info)
-        if position:
-            _judge_position(ctx, pre, buf, n, C, info)
+        _observe_position(ctx, buf, n, C, dict(info0, insertions=n))
         present = None if ok else set(int(x) for x in row[row > 0])
         m = len(stored) if ok else len(present)
         for b in sorted(set([m, 1, max(1, m // 2)])):
@@ -1055,14 +1064,13 @@ def u_longrun(ctx):
                 if n >= LIM:
                     ctx.monitor("cases_past_2^31_insertions")
                 checkpoint(pre if n >= LIM else "", cfg, C, buf, n, info0,
-                           "jit-add/past-2^31" if n >= LIM else "jit-add/approaching-2^31", position=n < LIM,
-                           reach=True)
+                           "jit-add/past-2^31" if n >= LIM else "jit-add/approaching-2^31", reach=True)
             # and a further compiled stretch
             cnt = int(rng.integers(1000, 5000))
             buf = _lerax(run, buf, jnp.asarray(n % LABELS, jnp.int32), jnp.asarray(cnt, jnp.int32))
             n += cnt
             ctx.monitor("cases_past_2^31_insertions")
-            checkpoint(pre, cfg, C, buf, n, info0, "fori-jit/past-2^31", position=False, reach=True)
+            checkpoint(pre, cfg, C, buf, n, info0, "fori-jit/past-2^31", reach=True)
         except _Shape as e:
             ctx.violation(pre + "buffer-leaf-shape", dict(info0, error=str(e)))
         except _LeraxRaised as e:
